@@ -61,6 +61,9 @@ struct C09 : RBase {
         case 10: st = "cw = " + std::string(r.chance(0.5) ? "oset(cw, " : "oset3(cw, ") + v + ");"; break;
         default: st = "forall rw in " + std::string(r.chance(0.5) ? "cn" : "cq") + " loop rw = " + v + "; break; end loop;"; break;
         }
+        if (r.chance(0.08)) { // a typed declaration of the iterator inside the loop resets the element; reading it afterwards must not change it
+          static const char* TD[][2] = {{"ci", "integer"}, {"cd", "decimal"}, {"ci", "string"}, {"cn", "table"}, {"ct", "tuple"}};
+          auto& td = TD[r.below(5)]; st = std::string("forall e in ") + td[0] + " loop e:" + td[1] + "; print isnull(e) isnull(e) typeof(e); end loop;"; }
         if (r.chance(0.08)) st = "forall $pe" + std::to_string(i) + " in " + t + " loop print 1; end loop;";   // a type-protected name as iterator: refused at run time, nothing may stay locked
         U.push_back({raw(st)});
       }
